@@ -68,6 +68,66 @@ func hofCase(prop string, ctx *core.Ctx, idx int, data int) core.Result {
 	return res
 }
 
+// c04Params: parameter lists in which a name occurs more than once (the later parameter is the one the
+// name denotes; every parameter still has its own slot), with locals, closures and loops after them.
+func c04Params(ctx *core.Ctx, idx int) core.Result { return dupParamCase("C04", ctx, idx) }
+
+func dupParamCase(prop string, ctx *core.Ctx, idx int) core.Result {
+	r := core.CaseRng(ctx.Seed, prop+"/params", idx)
+	pool := []string{"a", "b", "c"}
+	n := r.Range(2, 5)
+	ps := make([]string, n)
+	for i := range ps {
+		ps[i] = pool[r.Intn(len(pool))]
+	}
+	if idx%4 != 3 { // force a duplicate three times out of four
+		i, j := r.Intn(n), r.Intn(n)
+		if i != j {
+			ps[j] = ps[i]
+		}
+	}
+	v := func() ast.Node { return nm(ps[r.Intn(n)]) }
+	var body ast.Node
+	switch r.Intn(6) {
+	case 0:
+		body = v()
+	case 1:
+		body = ast.Block{Stmts: []ast.Node{ast.Assign{Name: ps[r.Intn(n)], Value: ast.StrLit{V: "x"}}, ast.ArrayLit{Elems: []ast.Node{v(), v()}}}}
+	case 2:
+		body = ast.Block{Stmts: []ast.Node{ast.Assign{Name: "zl", Value: il(5)}, ast.Assign{Name: "zm", Value: ast.Binary{Op: "+", L: nm("zl"), R: il(1)}}, ast.ArrayLit{Elems: []ast.Node{v(), nm("zl"), v(), nm("zm")}}}}
+	case 3:
+		body = ast.Block{Stmts: []ast.Node{ast.Assign{Name: "zg", Value: ast.FuncLit{Body: ast.ArrayLit{Elems: []ast.Node{v(), v()}}}}, ast.Assign{Name: "zl", Value: il(7)}, ast.ArrayLit{Elems: []ast.Node{icall("zg"), nm("zl")}}}}
+	case 4:
+		body = ast.Block{Stmts: []ast.Node{ast.Assign{Name: "zs", Value: ast.ArrayLit{}}, ast.For{Vars: []string{"zi"}, Iters: []ast.Node{icall("fromto", il(0), il(2))}, Body: ast.Assign{Name: "zs", Value: ast.Binary{Op: "+", L: nm("zs"), R: ast.ArrayLit{Elems: []ast.Node{v(), nm("zi")}}}}}, nm("zs")}}
+	default:
+		body = ast.FuncLit{Body: ast.ArrayLit{Elems: []ast.Node{v(), v()}}}
+	}
+	args := make([]ast.Node, n)
+	for i := range args {
+		args[i] = il(int64(10 + i))
+	}
+	stmts := []ast.Node{ast.Assign{Name: "zf", Value: ast.FuncLit{Params: ps, Body: body}}, ast.Assign{Name: "zr", Value: ast.Call{Fn: "zf", Args: args}}}
+	if _, ok := body.(ast.FuncLit); ok {
+		stmts = append(stmts, icall("zdeep", il(30)), ast.Assign{Name: "zq", Value: icall("zr")})
+		stmts = append([]ast.Node{ast.Assign{Name: "zdeep", Value: ast.FuncLit{Params: []string{"q"}, Body: ast.If{Cond: ast.Binary{Op: "<=", L: nm("q"), R: il(0)}, Then: il(0), Else: ast.Binary{Op: "+", L: il(1), R: icall("zdeep", ast.Binary{Op: "-", L: nm("q"), R: il(1)})}}}}}, stmts...)
+	}
+	stmts = append(stmts, ast.Assign{Name: "zr", Value: ast.Call{Fn: "zf", Args: args}}, nm("zr"))
+	opts := diffOpts{DoOut: r.Bool(), Stress: stressModes[r.Intn(len(stressModes))], Residue: true, Globals: true}
+	d := runDiff(stmts, opts)
+	res := diffCase(prop, stmts, opts, d, map[string]any{"family": "params"})
+	seen := map[string]bool{}
+	dup := false
+	for _, p := range ps {
+		dup = dup || seen[p]
+		seen[p] = true
+	}
+	if dup {
+		res.Add("duplicate_parameter_lists", 1)
+	}
+	res.Nontrivial = d.Verdict == core.Held
+	return res
+}
+
 func countCalls(stmts []ast.Node, fns ...string) int {
 	n := 0
 	for _, st := range stmts {
@@ -110,6 +170,7 @@ func init() {
 			{Name: "scope", Count: countFn(9000, 500000), Run: c04Scope},
 			{Name: "typed", Count: countFn(5000, 200000), Run: c04Typed},
 			{Name: "hof", Count: countFn(5000, 300000), Run: c04Hof},
+			{Name: "params", Count: countFn(1200, 60000), Run: c04Params},
 		},
 		Floors: []core.Floor{{Key: "statements_compared", Quick: 30000, Thor: 3000000}, {Key: "functions_defined", Quick: 8000, Thor: 800000}, {Key: "escaped_closures_called", Quick: 10000, Thor: 1000000}, {Key: "closure_routes", Quick: 10000, Thor: 600000}, {Key: "tag:scope:", Quick: 2, Thor: 2}, {Key: "nontrivial", Quick: 3000, Thor: 300000}},
 	})
